@@ -43,6 +43,12 @@ def main():
             al = equiv._class_aliases(tree)
             mh = {k: v[0] for k, v in nf.items() if "." not in k and k not in rf}
             ch = {k.split(".", 1)[1]: v[0] for k, v in nf.items() if "." in k and k not in rf}
+            for rel2, src2 in ov.items():
+                if rel2 != rel:
+                    rf2 = equiv._function_table(ast.parse(refs[rel2])); nf2 = equiv._function_table(ast.parse(src2))
+                    for k2, v2 in nf2.items():
+                        if "." in k2 and k2 not in rf2:
+                            ch.setdefault(k2.split(".", 1)[1], v2[0])
             table = equiv.HelperTable(mh, ch, al.get(cls, {}) if cls else {}, cls)
             a = ast.unparse(equiv.canon(rf[q][0])).splitlines()
             b = ast.unparse(equiv.canon(node, table)).splitlines()
